@@ -71,6 +71,7 @@ fn main() {
                 "total" => total::trace(seed, n),
                 "expr" => exprtrace::trace(seed, n),
                 "process" => total::trace_process(seed, n),
+                "sigint" => cli::trace_sigint(seed, n),
                 m => { eprintln!("unknown module {}", m); exit(2) }
             };
             common::write_ndjson(&args[5], &events);
